@@ -84,6 +84,13 @@ def addI (t : Nat) (d : Int) : Nat := (Int.ofNat t + d).toNat
 /-- the outcome segment of an observation line -/
 def outSeg (obs : String) : String := (obs.splitOn " || ").headD ""
 
+/-- C20, storage half: the harness lists everything handed to the storage layer during the operation
+    that equals a usable secret in cleartext (4th segment "taint=,item,…"); each item is a hit -/
+def taintHits (obs : String) : List String :=
+  match (obs.splitOn " || ").find? (fun s => s.startsWith "taint=") with
+  | some s => (decList (s.drop 6).toString).map (fun it => "C20:storage-sees-secret:" ++ it)
+  | none => []
+
 def outKind (o : String) : String := (o.splitOn " ").headD ""
 def outField (o k : String) : String := kv (o.splitOn " ") k
 def errName (o : String) : String := ((o.splitOn " ").getD 1 "")
